@@ -46,6 +46,18 @@ func directiveFor(mask int, r *Rand) string {
 	return lead + directiveBody(mask, r)
 }
 
+// every switch spelled out (for a configuration whose own switches are anything at all)
+func directiveFull(mask int, r *Rand) string {
+	var parts []string
+	for i, n := range optNames {
+		parts = append(parts, fmt.Sprintf("%s: %v", n, mask&(1<<i) != 0))
+	}
+	if r.Bool() {
+		return ";;;; " + strings.Join(parts[:2], ", ") + "\n;;;; " + strings.Join(parts[2:], ",") + "\n"
+	}
+	return ";;;; " + strings.Join(parts, ", ") + "\n"
+}
+
 func directiveBody(mask int, r *Rand) string {
 	var parts []string
 	for i, n := range optNames {
@@ -141,11 +153,20 @@ func init() {
 					}
 				}
 				st, costs := randStateless(r), randCosts(r)
+				// a sixth of the groups: operators registered under built-in names, half of them also DECLARED stateless -
+				// the built-in must win at compile time (folding) and at run time alike
+				shadow := r.Intn(6) == 0
+				if shadow {
+					t = constRichTree(r)
+				}
+				if shadow && r.Bool() {
+					st = append(append([]string{}, st...), "+", "eq", "not", "in", "and")
+				}
 				bind := randBinding(r)
 				var runs [16]subsetRun
 				succ := 0
 				for mask := 0; mask < 16; mask++ {
-					rc := &RunCfg{Opts: optSubset(mask, r.Bool()), Stateless: st, Costs: costs}
+					rc := &RunCfg{Opts: optSubset(mask, r.Bool()), Stateless: st, Costs: costs, Shadow: shadow}
 					runs[mask] = runSubset(t, rc, bind, "")
 					if runs[mask].pan != nil {
 						c.Direct = append(c.Direct, DirectViolation{What: fmt.Sprintf("panic under subset %d: %v", mask, runs[mask].pan), Sig: "c02-panic", Sample: t.Src()})
@@ -155,7 +176,14 @@ func init() {
 						succ++
 					}
 					// the same subset by directive comments
-					rd := runSubset(t, &RunCfg{Opts: map[string]bool{}, Stateless: st, Costs: costs}, bind, directiveFor(mask, r))
+					var rd subsetRun
+					if r.Intn(3) == 0 {
+						// the configuration itself has the switches explicitly the OTHER way round (or all off): the directives decide
+						base := optSubset([]int{0, 15 ^ mask}[r.Intn(2)], true)
+						rd = runSubset(t, &RunCfg{Opts: base, Stateless: st, Costs: costs, Shadow: shadow}, bind, directiveFull(mask, r))
+					} else {
+						rd = runSubset(t, &RunCfg{Opts: map[string]bool{}, Stateless: st, Costs: costs, Shadow: shadow}, bind, directiveFor(mask, r))
+					}
 					if rd.pan == nil && runs[mask].cerr == nil && rd.cerr == nil {
 						if rd.dump != runs[mask].dump || (rd.err == nil) != (runs[mask].err == nil) || (rd.err == nil && !valEq(rd.val, runs[mask].val)) {
 							c.Direct = append(c.Direct, DirectViolation{What: fmt.Sprintf("subset %d set by directives differs from the same subset set by options", mask), Sig: "c02-directive",
@@ -196,7 +224,7 @@ func init() {
 				}
 				// (d) model fidelity on three subsets
 				for _, mask := range []int{15, r.Intn(16), r.Intn(16)} {
-					rc := &RunCfg{Opts: optSubset(mask, r.Bool()), Stateless: st, Costs: costs}
+					rc := &RunCfg{Opts: optSubset(mask, r.Bool()), Stateless: st, Costs: costs, Shadow: shadow}
 					addEval(c, b, &EvalSpec{Tree: t, RC: rc, Bind: bind, DoEval: true, Tags: []string{fmt.Sprintf("subset:%d", mask)}})
 				}
 			}
@@ -223,6 +251,9 @@ func init() {
 				}
 				mask := []int{15, 1, r.Intn(16)}[r.Intn(3)]
 				rc := &RunCfg{Opts: optSubset(mask, r.Bool()), Stateless: randStatelessHeavy(r), Shadow: r.Intn(5) == 0}
+				if rc.Shadow && r.Bool() {
+					rc.Stateless = append(rc.Stateless, "+", "eq", "not", "in", "and")
+				}
 				if r.Intn(4) == 0 { // a derived configuration with a sibling that declares the other operators
 					rc.Sibling = []string{}
 					for _, nme := range testOpNames {
@@ -293,6 +324,16 @@ func init() {
 				mask := []int{8, 15, 8 | r.Intn(8)}[r.Intn(3)]
 				bind := randBinding(r)
 				addEval(c, b, &EvalSpec{Tree: t, RC: &RunCfg{Opts: optSubset(mask, false), Costs: costs}, Bind: bind, DoEval: true, Tags: []string{fmt.Sprintf("subset:%d", mask)}})
+				if k%4 == 0 {
+					// the same subset chosen by `;;;;` directives over a configuration whose own switches are all OFF
+					// (Reordering included) but which carries the cost map: the same program
+					byOpt := runSubset(t, &RunCfg{Opts: optSubset(mask, true), Costs: costs}, bind, "")
+					byDir := runSubset(t, &RunCfg{Opts: optSubset(0, true), Costs: costs}, bind, directiveFull(mask, r))
+					if byOpt.pan == nil && byDir.pan == nil && byOpt.cerr == nil && byDir.cerr == nil && byOpt.dump != byDir.dump {
+						c.Direct = append(c.Direct, DirectViolation{What: "reordering switched on by a directive over a configuration that has it off does not use the configured costs", Sig: "c16-directive-costs",
+							Sample: map[string]interface{}{"source": t.Src(), "costs": costs, "by_options": clip(byOpt.dump, 300), "by_directive": clip(byDir.dump, 300)}})
+					}
+				}
 				// the same tree with one cost entry raised
 				if costs != nil && r.Bool() {
 					c2 := map[string]int64{}
@@ -349,6 +390,11 @@ func constRichTree(r *Rand) *GT {
 	walk(t)
 	if t.Kind != "op" && t.Kind != "if" {
 		t = gop("c_id", t)
+	}
+	if r.Intn(8) == 0 {
+		// a failing constant sub-expression under a double negation: the error must surface from Eval
+		inner := []*GT{gconst(int64(3)), gop("+", gconst(int64(1)), gconst(int64(2))), gconst("yes"), gvar("i0")}[r.Intn(4)]
+		t = gop(pick(r, eqNames), t, gop(pick(r, notNames), gop(pick(r, notNames), inner)))
 	}
 	return t
 }
